@@ -3,6 +3,7 @@ package scen
 import (
 	"bytes"
 	"context"
+	"encoding/binary"
 	"fmt"
 	"sort"
 	"strings"
@@ -58,6 +59,7 @@ type scriptPubSub struct {
 	held        chan struct{} // the channel that was installed as hold (kept for closing)
 	waiting     int           // callers currently inside a held Subscribe
 	all         map[string][]*scriptSub
+	failNext    int // the next failNext Subscribe calls fail (a fault of the underlying pubsub)
 }
 
 func (p *scriptPubSub) holdChan() chan struct{} { return p.held }
@@ -99,6 +101,10 @@ func (p *scriptPubSub) Subscribe(_ context.Context, topic string, _ ...options.P
 	}
 	p.mu.Lock()
 	defer p.mu.Unlock()
+	if p.failNext > 0 {
+		p.failNext--
+		return nil, fmt.Errorf("script: subscribe refused")
+	}
 	s := &scriptSub{ch: make(chan scriptMsg, 16)}
 	p.subs[topic] = s
 	if p.all == nil {
@@ -573,6 +579,41 @@ func runDirectChannelSizes() (string, []explore.Violation) {
 	return fmt.Sprintf("sizes=%d", len(sizes)), vs
 }
 
+// runDirectChannelDeclaredLengths: raw frames whose declared length is beyond the limit (up to the largest
+// 64-bit value) reach the receiving adapter; each is refused (nothing delivered, no crash) and a valid payload
+// sent afterwards still arrives once, intact.
+func runDirectChannelDeclaredLengths() (string, []explore.Violation) {
+	var vs []explore.Violation
+	a, b := sim.DeterministicPeerID("dcA"), sim.DeterministicPeerID("dcB")
+	ha, hb := sim.NewFakeHost(a), sim.NewFakeHost(b)
+	ha.Peers[b] = hb
+	emB := &recEmitter{}
+	chA, _ := directchannel.InitDirectChannelFactory(zap.NewNop(), ha)(bg, &recEmitter{}, nil)
+	_, _ = directchannel.InitDirectChannelFactory(zap.NewNop(), hb)(bg, emB, nil)
+	const max = directchannel.DelimitedReadMaxSize
+	lengths := []uint64{max + 1, 1 << 32, 1<<63 - 1, 1 << 63, 1<<63 + 12345, 1<<64 - 1}
+	for k, l := range lengths {
+		buf := make([]byte, binary.MaxVarintLen64)
+		n := binary.PutUvarint(buf, l)
+		raw := append(buf[:n], []byte("tail")...)
+		if h := hb.Handler(directchannel.PROTOCOL); h != nil {
+			go h(sim.NewInStream(a, raw))
+		}
+		_ = sim.Quiesce()
+		payload := []byte(fmt.Sprintf("after-%d", k))
+		_ = chA.Send(bg, b, payload)
+		_ = sim.Quiesce()
+		emB.mu.Lock()
+		got := append([]*iface.EventPubSubPayload{}, emB.evts...)
+		emB.evts = nil
+		emB.mu.Unlock()
+		if len(got) != 1 || !bytes.Equal(got[0].Payload, payload) {
+			vs = append(vs, explore.Violation{Signature: "directchannel-oversized-frame-disturbs-traffic", Detail: fmt.Sprintf("after a frame declaring %d bytes, the next payload was delivered %d times", l, len(got))})
+		}
+	}
+	return fmt.Sprintf("declared lengths=%d", len(lengths)), vs
+}
+
 func runDirectChannelInterleavings() (string, []explore.Violation) {
 	orders := [][]string{{"a1", "a2", "b1", "b2"}, {"a1", "b1", "a2", "b2"}, {"a1", "b1", "b2", "a2"}, {"b1", "a1", "a2", "b2"}, {"b1", "a1", "b2", "a2"}, {"b1", "b2", "a1", "a2"}}
 	var vs []explore.Violation
@@ -703,7 +744,7 @@ func runDirectChannelConcurrentSends() (string, []explore.Violation) {
 func init() {
 	explore.Register(&explore.CheckDef{
 		ID: "C20", Level: "exploration",
-		Rule: "pubsubcoreapi over a scripted PubSub API whose poll loop is stepped one membership snapshot at a time: every sequence of <= 3 (quick) / <= 4 (thorough) snapshots over 3 remote peers, each snapshot a duplicate-free set in every list order (16 ordered lists): joins and leaves reported must be exactly the set differences of consecutive snapshots, once each, and Peers() the last snapshot; every message sequence of length <= 3 over sender {self, p1, p2} x payload {empty, 1 byte, 64 KiB} must be delivered as exactly the multiset of its non-self payloads, byte-identical (order is not part of the statement and is not judged) (topic adapter and one-on-one channel monitor, the latter attributed to the channel's remote peer). oneonone: channel names symmetric, distinct and used for sending, for all 20 ordered pairs of 5 peer ids; two overlapping Connect calls for one peer (the subscription call held open) must leave one subscription and deliver a later payload once. directchannel over an in-memory host: 10 payload sizes from 0 to the frame limit +1 (exact bytes, exact sender, once; oversize refused and the next frame still delivered) and all 6 interleavings of two senders x two frames; two concurrent Sends through one channel object (prefixes of different length, one or two receivers) with every stream write a schedule point, all 6 write orders. pubsubraw over three real in-memory libp2p hosts with gossipsub: every message sequence of length <= 2 over 3 senders x 2 sizes, receipt-based waiting (bounded input enumeration without schedule control; a delivery the library does not make in time ends the case as inconclusive, not as a violation). Non-trivial = sequences in which membership changes / a self-sent message occurs.",
+		Rule: "pubsubcoreapi over a scripted PubSub API whose poll loop is stepped one membership snapshot at a time: every sequence of <= 3 (quick) / <= 4 (thorough) snapshots over 3 remote peers, each snapshot a duplicate-free set in every list order (16 ordered lists): joins and leaves reported must be exactly the set differences of consecutive snapshots, once each, and Peers() the last snapshot; every message sequence of length <= 3 over sender {self, p1, p2} x payload {empty, 1 byte, 64 KiB} must be delivered as exactly the multiset of its non-self payloads, byte-identical (order is not part of the statement and is not judged) (topic adapter and one-on-one channel monitor, the latter attributed to the channel's remote peer). oneonone: channel names symmetric, distinct and used for sending, for all 20 ordered pairs of 5 peer ids; two overlapping Connect calls for one peer (the subscription call held open) must leave one subscription and deliver a later payload once. directchannel over an in-memory host: 10 payload sizes from 0 to the frame limit +1 (exact bytes, exact sender, once; oversize refused and the next frame still delivered; raw frames declaring 4 MiB+1 up to 2^64-1 bytes refused likewise) and all 6 interleavings of two senders x two frames; two concurrent Sends through one channel object (prefixes of different length, one or two receivers) with every stream write a schedule point, all 6 write orders. pubsubraw over three real in-memory libp2p hosts with gossipsub: every message sequence of length <= 2 over 3 senders x 2 sizes, receipt-based waiting (bounded input enumeration without schedule control; a delivery the library does not make in time ends the case as inconclusive, not as a violation). Non-trivial = sequences in which membership changes / a self-sent message occurs.",
 		Units: func(tier string) []explore.Unit {
 			u := explore.ChunkUnits("membership-"+tier, 16)
 			u = append(u, explore.ChunkUnits("topicmsgs", 4)...)
@@ -775,6 +816,7 @@ func init() {
 				cases = append(cases, explore.Case{ID: "oneonone concurrent connect", Nontrivial: true, Run: runOneOnOneConcurrentConnect})
 				cases = append(cases, explore.Case{ID: "directchannel sizes", Nontrivial: true, Run: runDirectChannelSizes})
 				cases = append(cases, explore.Case{ID: "directchannel interleavings", Nontrivial: true, Run: runDirectChannelInterleavings})
+				cases = append(cases, explore.Case{ID: "directchannel declared lengths", Nontrivial: true, Run: runDirectChannelDeclaredLengths})
 				cases = append(cases, explore.Case{ID: "directchannel concurrent sends through one channel", Nontrivial: true, Run: runDirectChannelConcurrentSends})
 				cases = append(cases, explore.Case{ID: "pubsubraw over in-memory libp2p hosts", Nontrivial: true, Run: runPubSubRaw})
 			}
